@@ -355,7 +355,8 @@ class C12(Prop):
             'attributes (or the block is skipped); non-trivial = >= 2 attribute kinds')
 
     TARGETS = [('para text', 'p'), ('# Header', 'h1'), ('```\ncode\n```', 'pre'), ('""\nquote\n""', 'blockquote'), ('- item\n- two', 'ul'),
-               ('  indented', 'pre'), ('. one', 'ol'), ('>quoted par', 'blockquote'), ('<image:http://a.b/i.png|alt>', 'img')]
+               ('  indented', 'pre'), ('. one', 'ol'), ('>quoted par', 'blockquote'), ('<image:http://a.b/i.png|alt>', 'img'),
+               ('<div>raw</div>', 'div'), ('<section>\nraw\n</section>', 'section'), ('<div>raw</div>', 'div')]
 
     def cases(self, ctx):
         rng = ctx.rng
@@ -445,12 +446,19 @@ class C12(Prop):
                 res.violation('+skip did not skip exactly the next block', case, {'with': out_with, 'without': out_without})
             return
         attr = case['attr']
+        if case['target'].startswith('<') and not case['target'].startswith('<image') and mode & 3 in (1, 2):
+            # a dropped / replaced HTML block consumes the attributes: nothing of them may appear anywhere
+            if attr and attr in out_with:
+                res.violation('attributes of a dropped HTML block appear in the output', case, out_with)
+                return
+            attr = ''
         if attr:
             if out_with.count(attr) != 1:
                 res.violation('accumulated attributes %r do not occur exactly once' % attr, case, out_with)
                 return
             i = out_with.index(attr)
-            if not out_with[:i].endswith('<' + case['tag']):
+            lead = '&lt;' if (case['target'].startswith('<') and not case['target'].startswith('<image') and mode & 3 == 3) else '<'
+            if not out_with[:i].endswith(lead + case['tag']):
                 res.violation('attributes are not on the first tag <%s> of the next block' % case['tag'], case, out_with)
                 return
             stripped = out_with.replace(attr, '', 1)
